@@ -152,6 +152,8 @@ type harnessCall struct {
 	model map[string]string
 	input string
 	call  string
+	// objects the harness could not build and passed as nil although the model has them non-nil
+	nilSubst []string
 }
 
 // replayCandidates builds one harness with all candidate inputs, runs it once, and judges each outcome
@@ -241,7 +243,7 @@ func (p *Program) replayCandidateList(fr *FuncResult, cands []map[string]string,
 		if len(in) > 600 {
 			in = in[:600] + "..."
 		}
-		calls = append(calls, harnessCall{body: body, model: cm, input: in, call: call})
+		calls = append(calls, harnessCall{body: body, model: cm, input: in, call: call, nilSubst: me.nilSubst})
 	}
 	if len(calls) == 0 {
 		rr.Verdict = "not replayable"
@@ -268,7 +270,15 @@ func (p *Program) replayCandidateList(fr *FuncResult, cands []map[string]string,
 		if err := json.Unmarshal([]byte(out), &oc); err != nil {
 			continue
 		}
-		verdict, violated := p.judge(fr, calls[i].model, &oc, work)
+		var verdict string
+		var violated bool
+		if oc.Panicked && oc.Runtime && strings.Contains(oc.PanicMsg, "nil pointer dereference") && len(calls[i].nilSubst) > 0 {
+			// the harness could not build an object the function reads (it is behind an abstraction in the
+			// contract) and passed nil: the crash is the harness's, not the code's
+			verdict = "not replayable: the harness cannot construct " + strings.Join(calls[i].nilSubst, ", ") + " (passed as nil, which the real code dereferences)"
+		} else {
+			verdict, violated = p.judge(fr, calls[i].model, &oc, work)
+		}
 		if os.Getenv("VERIF_DEBUG_REPLAY") != "" {
 			fmt.Fprintf(os.Stderr, "candidate %d: %s\n  -> %s\n  => %v %s\n", i, truncate(calls[i].input, 200), truncate(out, 300), violated, verdict)
 		}
